@@ -29,6 +29,13 @@ def reverse_find_token(items: list[ExprNode], value: str) -> int:
     return -1
 
 
+def operator_precedence(expr: ExprNode) -> int:
+    # a prefix operator binds tightest, whatever its binary namesake's precedence is.
+    if isinstance(expr, UnaryOp):
+        return 2
+    return OPERATOR_PRECEDENCE[expr.token.value]
+
+
 def shunting_yard(expr_nodes: list[ExprNode]) -> list[ExprNode]:
     output_queue: list[ExprNode] = []
     operator_stack: list[ExprNode] = []
@@ -37,12 +44,12 @@ def shunting_yard(expr_nodes: list[ExprNode]) -> list[ExprNode]:
         if isinstance(expr, Term):
             output_queue.append(expr)
         elif isinstance(expr, BinOp) or isinstance(expr, UnaryOp):
-            current_precedence = OPERATOR_PRECEDENCE[expr.token.value] if isinstance(expr, BinOp) else 2
+            current_precedence = operator_precedence(expr)
 
             while (
                 isinstance(expr, BinOp)
                 and len(operator_stack) > 0
-                and OPERATOR_PRECEDENCE[operator_stack[-1].token.value] <= current_precedence
+                and operator_precedence(operator_stack[-1]) <= current_precedence
                 and operator_stack[-1].token.value != "("
             ):
                 output_queue.append(operator_stack.pop())
